@@ -85,6 +85,13 @@ func (g *Gen) fill(kind string, p *Program) Op {
 		"Int64", "Int32", "Uint64", "Uint32":
 		op.D = []string{d()}
 		switch kind {
+		case "Cbrt", "Exp", "Exp10", "Exp2", "Expm1", "Log", "Log10", "Log1p", "Log2", "Sqrt", "Frexp", "Canonical":
+			// poles, fixed points and shortcut arguments, in any encoding
+			if g.R.P(1, 5) {
+				op.D = []string{g.smallConst()}
+			}
+		}
+		switch kind {
 		case "Int64", "Int32", "Uint64", "Uint32":
 			if g.R.P(1, 2) {
 				op.D = []string{g.boundDec()}
@@ -491,8 +498,19 @@ func GenerateFocus(prof *Profile, seed, run uint64, kinds []string) (*Program, *
 			g.decs = append(g.decs, parseLitForGen(lit))
 		}
 	}
-	g.decs = append(g.decs, g.Dec())
 	if g.R.P(1, 2) {
+		// an arithmetic progression: arguments that differ by a stride
+		// collide in direct-mapped tables, hash buckets and modular indices
+		start := g.R.Range(-7000, 7000)
+		stride := []int{1, 2, 10, 16, 64, 100, 128, 256, 1000, 1024}[g.R.N(10)]
+		frac := []string{"", "", ".5", ".25"}[g.R.N(4)]
+		for i := g.R.Range(3, 6); i > 0; i-- {
+			g.decs = append(g.decs, parseLitForGen(fmt.Sprintf("%d%s", start, frac)))
+			start += stride * g.R.Range(1, 3)
+		}
+	}
+	g.decs = append(g.decs, g.Dec())
+	if g.R.P(1, 3) {
 		// wide variant: state that fills up with distinct arguments (caches
 		// with a budget, tables that grow) needs variety, not collisions
 		g.decs = nil
